@@ -38,7 +38,9 @@ def gen_case(rng: Rng, i):
         ops += [rend(A + "|" + B), rend(A + "|"), rend("|" + B)]
     elif mode == "repeat":
         k = rng.range(2, 4)
-        ops += [rend("|".join([A] * k)), rend(A)]
+        # every copy has the same neighbours ('|' on both sides): the standalone-line rule looks at the text around a tag,
+        # so a copy at the very start / end of the source is a different program from one in the middle
+        ops += [rend("|" + "|".join([A] * k) + "|"), rend("|" + A + "|")]
         mode = "repeat%d" % k
     else:
         ops += [rend("{{rcs}}|" + A + "|{{rcs}}")]
@@ -81,7 +83,7 @@ def oracle(case, meta, impl):
         if one.get("reason") == "TemplateError" or many.get("reason") == "TemplateError":
             return None
         if one.get("r") == "ok":
-            exp = "|".join([one["out"]] * k)
+            exp = "|" + "|".join([one["out"][1:-1]] * k) + "|"
             if many.get("r") != "ok":
                 return ["a construct renders once but not %d times: %s" % (k, many.get("reason"))]
             return [] if many["out"] == exp else ["%d copies render %r, expected %r" % (k, many["out"], exp)]
